@@ -798,3 +798,74 @@ def c02_compare(case, kinds, req, m_req, d, table, stats, report, viol):
             report(viol, "c02:path-does-not-reresolve:%s" % kinds,
                    "%r: result %s reports path %r, which evaluates to %s" % (text, a, ptxt, rq.get("err") or got),
                    dict(case, impl=ir, requery=rq, prop="C02"))
+
+
+# --------------------------------------------------------------------------- collectors (C15, direct check only)
+
+COLL_OPERANDS = ["a", "b", "ab", "c", "a.b", "b.a", "[0]", "[1]", "[-1]", "*", "**", "a[0]", "a.*", "[.=a]", "[.>0]", "[a=1]",
+                 "1", "[0:2]", "a[0:2]", "[.!=1]", "*.a", "[&x]"]
+
+
+def random_collector(rng):
+    ops = []
+    n = rng.randint(1, 3)
+    operands = [rng.choice(COLL_OPERANDS) for _ in range(n)]
+    text = "(%s)" % operands[0]
+    for o in operands[1:]:
+        text += rng.choice(["+", "-", "&"]) + "(%s)" % o
+    tail = rng.choice(["", "", "", "[0]", "[.=a]", "[1:2]", "[-1]"])
+    return operands, text + tail
+
+
+def selects_only_scalars(doc, operand):
+    """Does the operand path, evaluated on the document root, select scalars only (the quantifier of C15)?"""
+    from yamlpath import Processor
+    from yamlpath.wrappers import NodeCoords
+    d = codec.json_to_ruamel(doc)
+    p = Processor(core.quiet_logger(), d)
+    try:
+        for nc in p.get_nodes(operand, mustexist=True):
+            v = NodeCoords.unwrap_node_coords(nc)
+            if isinstance(v, (dict, list, set)):
+                return False
+    except Timeout:
+        raise
+    except Exception:
+        return True     # an operand that raises is judged by the whole query
+    return True
+
+
+def collector_chunk(args):
+    """cases: (doc, operands, text).  Direct C15 check of collector paths whose operands select scalars;
+    the evaluator model does not cover collectors (counted out of model)."""
+    cases, _opts = args
+    core.use_repo()
+    stats = {"n": 0, "in_quantifier": 0, "nonscalar_operand": 0, "crash_outside_quantifier": 0, "mutated": 0, "ok": 0, "ypath": 0}
+    viol = []
+    per_sig = {}
+    for doc, operands, text in cases:
+        stats["n"] += 1
+        try:
+            scalar_only = with_timer(lambda: all(selects_only_scalars(doc, o) for o in operands))
+        except Timeout:
+            scalar_only = True
+        for mode in ("req", "exists"):
+            out, _d, _t = run_query(doc, text, mode)
+            e = out.get("err")
+            if out.get("mutated"):
+                stats["mutated"] += 1
+            if e is None:
+                stats["ok"] += 1
+            elif e == "ypath":
+                stats["ypath"] += 1
+            elif not scalar_only:
+                stats["crash_outside_quantifier"] += 1
+            else:
+                sig = "crash:%s@%s" % (e.split(":", 1)[-1], out.get("site"))
+                n = per_sig.get(sig, 0)
+                per_sig[sig] = n + 1
+                if n < 3:
+                    viol.append((sig, "%s query %r (collector, scalar operands) raised %s at %s" % (mode, text, e, out.get("site")),
+                                 {"doc": doc, "path": text, "items": [text], "prop": "C15", "impl": out}))
+        stats["in_quantifier" if scalar_only else "nonscalar_operand"] += 1
+    return stats, viol
